@@ -126,7 +126,7 @@ fn coerce_variable_value(
                 if value.is_f64()
                     || value
                         .as_f64()
-                        .is_some_and(|f| f.abs() < MAX_SAFE_INT as f64)
+                        .is_some_and(|f| f.abs() <= MAX_SAFE_INT as f64)
                 {
                     return Ok(value.clone());
                 }
